@@ -29,6 +29,11 @@ type Case struct {
 	Extensions map[string]string
 	Prins      []string
 	PrinsNil   bool
+	// Other certificate fields, none of which is an input of the type: kind of certificate (0 = unset,
+	// 1 = user, 2 = host, 7 = undefined), serial, validity window
+	CertType    uint32
+	Serial      uint64
+	ValidBefore uint64
 }
 
 // ---- independent decision table (from the statement / README) ----
@@ -84,7 +89,7 @@ func (c Case) certificate() *ssh.Certificate {
 	if c.CertNil {
 		return nil
 	}
-	ct := &ssh.Certificate{KeyId: c.KeyIDText, CertType: ssh.UserCert, ValidPrincipals: c.Prins}
+	ct := &ssh.Certificate{KeyId: c.KeyIDText, CertType: c.CertType, ValidPrincipals: c.Prins, Serial: c.Serial, ValidBefore: c.ValidBefore}
 	if c.CritMode != "nilmap" {
 		ct.CriticalOptions = map[string]string{}
 		for k, v := range c.OtherCrit {
@@ -249,6 +254,9 @@ func genDecor(t *rapid.T, c *Case) {
 	if rapid.Bool().Draw(t, "ext") {
 		c.Extensions = map[string]string{rapid.SampledFrom([]string{"permit-pty", critOpt}).Draw(t, "ek"): rapid.SampledFrom([]string{"", "www.example.com"}).Draw(t, "ev")}
 	}
+	c.CertType = rapid.SampledFrom([]uint32{ssh.UserCert, ssh.UserCert, 0, ssh.HostCert, 7}).Draw(t, "certType")
+	c.Serial = rapid.SampledFrom([]uint64{0, 1, 1 << 63}).Draw(t, "serial")
+	c.ValidBefore = rapid.SampledFrom([]uint64{0, 1, ssh.CertTimeInfinity}).Draw(t, "validBefore")
 	c.PrinsNil = rapid.IntRange(0, 5).Draw(t, "prinsNil") == 0
 	if !c.PrinsNil {
 		n := rapid.IntRange(0, 4).Draw(t, "nprins")
@@ -317,7 +325,7 @@ func gen(t *rapid.T) Case {
 	return c
 }
 
-const rule = "certificates with KeyIDs built from attribute sets (16 flag combinations x touch policy {-1..4,7} x version, decorated with random transaction ids, principals, usage, extra members, member order, JSON whitespace inside and around the object), near-miss KeyIDs (one required member deleted / upper-cased / retyped, truncated text), free text and nil certificates; critical option nil-map / absent / empty / set, other critical options and look-alike names, extensions carrying the option name. Oracle: independently written decision table for GetType, Label = documented type name + 'SSH-' + transaction id (error for unknown), GetPrincipals suffix rules. Non-trivial: decodable KeyID with at least one flag set or the critical option present; distinct by Case hash."
+const rule = "certificates with KeyIDs built from attribute sets (16 flag combinations x touch policy {-1..4,7} x version, decorated with random transaction ids, principals, usage, extra members, member order, JSON whitespace inside and around the object), near-miss KeyIDs (one required member deleted / upper-cased / retyped, truncated text), free text and nil certificates; critical option nil-map / absent / empty / set, other critical options and look-alike names, extensions carrying the option name; certificate kind unset / user / host / undefined, serial and validity window at their extremes (no input of the type). Oracle: independently written decision table for GetType, Label = documented type name + 'SSH-' + transaction id (error for unknown), GetPrincipals suffix rules. Non-trivial: decodable KeyID with at least one flag set or the critical option present; distinct by Case hash."
 
 func TestC19Random(t *testing.T) {
 	vh.Run(t, vh.Spec[Case]{Property: "C19", Name: "TestC19Random", Rule: rule, Gen: gen, Exec: exec})
